@@ -56,6 +56,26 @@ impl VariableAccess {
         // We disregard the version to make sure accesses are not order dependent.
         VariableAccess { var: var.without_version(), access: access.to_vec() }
     }
+
+    /// Returns true if the two accesses may refer to the same component. Array indices are
+    /// identified unless they are known to be different, since the same element may be
+    /// accessed using different index expressions (and an index variable has the same name
+    /// inside and after a loop).
+    fn maybe_equal(&self, other: &VariableAccess) -> bool {
+        use AccessType::*;
+        self.var == other.var
+            && self.access.len() == other.access.len()
+            && self.access.iter().zip(other.access.iter()).all(|accesses| match accesses {
+                (ComponentAccess(name), ComponentAccess(other_name)) => name == other_name,
+                (ArrayAccess(index), ArrayAccess(other_index)) => {
+                    match (index.value(), other_index.value()) {
+                        (Some(value), Some(other_value)) => value == other_value,
+                        _ => true,
+                    }
+                }
+                _ => false,
+            })
+    }
 }
 
 /// Tracks component instantiations `var = T(...)` where then template `T` is
@@ -107,6 +127,25 @@ fn add_component(
             }
         }
     }
+}
+
+/// Returns the instantiation of the component. If the access may refer to components which are
+/// instantiated in different ways the component is not tracked.
+fn get_component<'a>(
+    components: &'a HashMap<VariableAccess, Component>,
+    access: &VariableAccess,
+) -> Option<&'a Component> {
+    let mut result: Option<&Component> = None;
+    for (other, component) in components {
+        if other.maybe_equal(access) {
+            match result {
+                None => result = Some(component),
+                Some(previous) if previous.same_as(component) => {}
+                Some(_) => return Some(&Component::Unknown),
+            }
+        }
+    }
+    result
 }
 
 /// Tracks component input signal initializations on the form `T.in <== input`
@@ -240,6 +279,10 @@ fn update_components(stmt: &Statement, components: &mut HashMap<VariableAccess, 
                 );
                 let component = VariableAccess::new(var, &access);
                 add_component(components, component, Component::num_2_bits(&args[0]));
+            } else {
+                // The component may also be instantiated as `LessThan` or `Num2Bits`.
+                let component = VariableAccess::new(var, &access);
+                add_component(components, component, Component::Unknown);
             }
         }
     }
@@ -263,7 +306,7 @@ fn update_inputs(
         let mut component_access = access.clone();
         let signal_access = component_access.pop();
         let component = VariableAccess::new(var, &component_access);
-        if let Some(Component::Num2Bits { bit_size, .. }) = components.get(&component) {
+        if let Some(Component::Num2Bits { bit_size, .. }) = get_component(components, &component) {
             let Some(ComponentAccess(signal_name)) = signal_access else {
                 return;
             };
@@ -274,6 +317,24 @@ fn update_inputs(
             inputs.push(ComponentInput::num_2_bits(rhe, bit_size));
         }
 
+        // If both `LessThan` inputs are assigned at once, the input signal access
+        // is the last element of the `access` vector.
+        let mut component_access = access.clone();
+        let signal_access = component_access.pop();
+        let component = VariableAccess::new(var, &component_access);
+        if let Some(Component::LessThan { .. }) = get_component(components, &component) {
+            if let (Some(ComponentAccess(signal_name)), InlineArray { values, .. }) =
+                (signal_access, rhe.as_ref())
+            {
+                if signal_name == "in" {
+                    for value in values {
+                        trace!("`LessThan` input signal assignment `{value}` found");
+                        inputs.push(ComponentInput::less_than(value));
+                    }
+                }
+            }
+        }
+
         // If this is a `LessThan` input signal assignment, the input index
         // access would be the last element, and the input signal access
         // would be the next to last element of the `access` vector.
@@ -281,7 +342,7 @@ fn update_inputs(
         let index_access = component_access.pop();
         let signal_access = component_access.pop();
         let component = VariableAccess::new(var, &component_access);
-        if let Some(Component::LessThan { .. }) = components.get(&component) {
+        if let Some(Component::LessThan { .. }) = get_component(components, &component) {
             let (Some(ComponentAccess(signal_name)), Some(ArrayAccess(_))) =
                 (signal_access, index_access)
             else {
